@@ -683,15 +683,32 @@ package avro
 //@   ensures [C02] streq(tbytes(1, a, b), "avro.schema") && samebytes(tbytes(2, a, b), old(f.schema)) && streq(tbytes(3, a, b), "avro.codec") && samebytes(tbytes(4, a, b), old(f.compression))
 //@   ensures (base(res) == base(b0) || (newobj(res) && !cowned(res))) && off(res) == off(b0)
 //@   modifies BH[buf]
-//@   after 1-7 assert (forall k int :: 0 <= k && k < L ==> buf[k] == old(b0[k])) && off(buf) == off(b0) && (base(buf) == base(b0) || (newobj(buf) && !cowned(buf))) && bhframe(b0)
-//@   after 1-7 assert len(buf) >= L + 4 && buf[L] == 79 && buf[L+1] == 98 && buf[L+2] == 106 && buf[L+3] == 1
-//@   after 2-7 assert len(buf) >= L + 5 && buf[L+4] == 4
-//@   after 3 assert len(buf) == L + 17
-//@   after 4 assert len(buf) == L + 17 + uvlen(zz(int64(sl))) + sl
-//@   after 5 assert len(buf) == L + 17 + uvlen(zz(int64(sl))) + sl + 11
-//@   after 6 assert len(buf) == tot - 17
-//@   after 7 assert len(buf) == tot - 16 && buf[tot-17] == 0
-//@   after 7 assert len(buf) > L
+//@   after append#1 assert (forall k int :: 0 <= k && k < L ==> buf[k] == old(b0[k])) && off(buf) == off(b0) && (base(buf) == base(b0) || (newobj(buf) && !cowned(buf))) && bhframe(b0)
+//@   after AppendVarint#1 assert (forall k int :: 0 <= k && k < L ==> buf[k] == old(b0[k])) && off(buf) == off(b0) && (base(buf) == base(b0) || (newobj(buf) && !cowned(buf))) && bhframe(b0)
+//@   after appendString#1 assert (forall k int :: 0 <= k && k < L ==> buf[k] == old(b0[k])) && off(buf) == off(b0) && (base(buf) == base(b0) || (newobj(buf) && !cowned(buf))) && bhframe(b0)
+//@   after appendString#2 assert (forall k int :: 0 <= k && k < L ==> buf[k] == old(b0[k])) && off(buf) == off(b0) && (base(buf) == base(b0) || (newobj(buf) && !cowned(buf))) && bhframe(b0)
+//@   after appendString#3 assert (forall k int :: 0 <= k && k < L ==> buf[k] == old(b0[k])) && off(buf) == off(b0) && (base(buf) == base(b0) || (newobj(buf) && !cowned(buf))) && bhframe(b0)
+//@   after appendString#4 assert (forall k int :: 0 <= k && k < L ==> buf[k] == old(b0[k])) && off(buf) == off(b0) && (base(buf) == base(b0) || (newobj(buf) && !cowned(buf))) && bhframe(b0)
+//@   after AppendVarint#2 assert (forall k int :: 0 <= k && k < L ==> buf[k] == old(b0[k])) && off(buf) == off(b0) && (base(buf) == base(b0) || (newobj(buf) && !cowned(buf))) && bhframe(b0)
+//@   after append#1 assert len(buf) >= L + 4 && buf[L] == 79 && buf[L+1] == 98 && buf[L+2] == 106 && buf[L+3] == 1
+//@   after AppendVarint#1 assert len(buf) >= L + 4 && buf[L] == 79 && buf[L+1] == 98 && buf[L+2] == 106 && buf[L+3] == 1
+//@   after appendString#1 assert len(buf) >= L + 4 && buf[L] == 79 && buf[L+1] == 98 && buf[L+2] == 106 && buf[L+3] == 1
+//@   after appendString#2 assert len(buf) >= L + 4 && buf[L] == 79 && buf[L+1] == 98 && buf[L+2] == 106 && buf[L+3] == 1
+//@   after appendString#3 assert len(buf) >= L + 4 && buf[L] == 79 && buf[L+1] == 98 && buf[L+2] == 106 && buf[L+3] == 1
+//@   after appendString#4 assert len(buf) >= L + 4 && buf[L] == 79 && buf[L+1] == 98 && buf[L+2] == 106 && buf[L+3] == 1
+//@   after AppendVarint#2 assert len(buf) >= L + 4 && buf[L] == 79 && buf[L+1] == 98 && buf[L+2] == 106 && buf[L+3] == 1
+//@   after AppendVarint#1 assert len(buf) >= L + 5 && buf[L+4] == 4
+//@   after appendString#1 assert len(buf) >= L + 5 && buf[L+4] == 4
+//@   after appendString#2 assert len(buf) >= L + 5 && buf[L+4] == 4
+//@   after appendString#3 assert len(buf) >= L + 5 && buf[L+4] == 4
+//@   after appendString#4 assert len(buf) >= L + 5 && buf[L+4] == 4
+//@   after AppendVarint#2 assert len(buf) >= L + 5 && buf[L+4] == 4
+//@   after appendString#1 assert len(buf) == L + 17
+//@   after appendString#2 assert len(buf) == L + 17 + uvlen(zz(int64(sl))) + sl
+//@   after appendString#3 assert len(buf) == L + 17 + uvlen(zz(int64(sl))) + sl + 11
+//@   after appendString#4 assert len(buf) == tot - 17
+//@   after AppendVarint#2 assert len(buf) == tot - 16 && buf[tot-17] == 0
+//@   after AppendVarint#2 assert len(buf) > L
 
 //@ func (*FileWriter).WriteHeader
 //@   requires f != nil && w != nil && len(f.schema) < 1<<40 && len(f.compression) < 1<<40
